@@ -1,0 +1,148 @@
+//go:build verif
+
+package ps
+
+// Access to the unexported fields and helpers of the blind-signature objects, compiled only with the
+// build tag "verif" (properties C08/C09). Nothing here changes the behaviour of the package: every
+// function either copies pointers in and out of a struct or calls an existing function unchanged.
+
+import (
+	math "github.com/IBM/mathlib"
+)
+
+// VerifPSRequest is a BlindSignature with exported fields. The points and scalars are shared with the
+// BlindSignature it was taken from (no copies), so that aliasing effects of verification stay observable.
+type VerifPSRequest struct {
+	CM     *math.G1
+	MPrime *math.Zr
+	U      *math.G1
+	A, B   []*math.G1
+	X, Y   []*math.Zr
+	S      *math.G1
+	Z      *math.Zr
+	D, F   []*math.G1
+}
+
+func VerifPSRequestOf(bs BlindSignature) VerifPSRequest {
+	return VerifPSRequest{CM: bs.cm, MPrime: bs.mPrime, U: bs.u, A: bs.a, B: bs.b,
+		X: bs.ξ.x, Y: bs.ξ.y, S: bs.ξ.s, Z: bs.ξ.z, D: bs.ξ.d, F: bs.ξ.f}
+}
+
+func (v VerifPSRequest) BlindSignature() BlindSignature {
+	return BlindSignature{cm: v.CM, mPrime: v.MPrime, u: v.U, a: v.A, b: v.B,
+		ξ: BlindCorrectFormProof{x: v.X, y: v.Y, s: v.S, z: v.Z, d: v.D, f: v.F}}
+}
+
+func VerifPSParseRequest(c *math.Curve, raw []byte) (BlindSignature, error) {
+	var bs BlindSignature
+	err := bs.fromBytes(raw, c)
+	return bs, err
+}
+
+// VerifPSPoK is a SigPoK with exported fields (shared pointers).
+type VerifPSPoK struct {
+	X     []*math.Zr
+	Y     *math.Zr
+	Gamma *math.G2
+	Phi   *math.G1
+	HE    *math.G1
+	HPE   *math.G1
+	Nu    *math.G1
+	Kappa *math.G2
+}
+
+func VerifPSPoKOf(p SigPoK) VerifPSPoK {
+	return VerifPSPoK{X: p.ψ.x, Y: p.ψ.y, Gamma: p.ψ.Γ, Phi: p.ψ.Φ, HE: p.hε, HPE: p.hPrimeε, Nu: p.ν, Kappa: p.κ}
+}
+
+func (v VerifPSPoK) SigPoK() SigPoK {
+	return SigPoK{ψ: PoKofSignaturePoCorrectForm{x: v.X, y: v.Y, Γ: v.Gamma, Φ: v.Phi}, hε: v.HE, hPrimeε: v.HPE, ν: v.Nu, κ: v.Kappa}
+}
+
+func VerifPSParsePoK(c *math.Curve, raw []byte) (SigPoK, error) {
+	var p SigPoK
+	err := p.fromBytes(c, raw)
+	return p, err
+}
+
+// VerifPSVerifyPoK is SigPoK.Verify on the given object (not on a parsed copy).
+func VerifPSVerifyPoK(pp *PP, pk PK, p *SigPoK) error { return p.Verify(pp, pk) }
+
+// VerifPSSecretOf / VerifPSNewSecret expose the unblinding secret.
+func VerifPSSecretOf(us *UnblindingSecret) (h *math.G1, msg []*math.Zr, z *math.Zr) {
+	return us.h, us.msg, us.z
+}
+
+func VerifPSNewSecret(h *math.G1, msg []*math.Zr, z *math.Zr) UnblindingSecret {
+	return UnblindingSecret{h: h, msg: msg, z: z}
+}
+
+// VerifPSParams exposes the public parameters.
+type VerifPSParams struct {
+	G, G0 *math.G1
+	Gs    []*math.G1
+	G2    *math.G2
+	N     int
+}
+
+func VerifPSParamsOf(pp *PP) VerifPSParams {
+	return VerifPSParams{G: pp.g, G0: pp.g0, Gs: pp.gs, G2: pp.g2, N: pp.n}
+}
+
+// VerifPSSignerState returns the public parameters and the secret key share a TPS signs with.
+func VerifPSSignerState(tps *TPS) (*PP, SK) { return &tps.pp, tps.sk }
+
+func VerifPSSKOf(sk SK) (*math.Zr, []*math.Zr) { return sk.x, sk.ys }
+
+func VerifPSNewSK(x *math.Zr, ys []*math.Zr) SK { return SK{x: x, ys: ys} }
+
+// VerifPSProverState returns the parameters and keys a Prover works with.
+func VerifPSProverState(p *Prover) (*PP, PK, map[uint16]PK) {
+	return &p.pp, p.tpk, p.publicKeysOfParties
+}
+
+func VerifPSVerifierState(v *Verifier) (*PP, PK) { return &v.pp, v.tpk }
+
+func VerifPSParsePK(c *math.Curve, raw []byte) (PK, error) {
+	var pk PK
+	err := pk.fromBytes(c, raw)
+	return pk, err
+}
+
+func VerifPSSignatureOf(sig *Signature) (a, b *math.G1) { return sig.a, sig.b }
+
+// The building blocks of Blind and PoKofSig, unchanged.
+func VerifPSCommit(pp *PP, rcm *math.Zr, m []*math.Zr) *math.G1 { return commit(pp, rcm, m) }
+
+func VerifPSEncrypt(pp *PP, c *math.Curve, m []*math.Zr, h, u *math.G1) ([]*math.G1, []*math.G1, []*math.Zr) {
+	return encrypt(pp, c, m, h, u)
+}
+
+func VerifPSHash(in []byte) []byte { return hash(in) }
+
+// VerifPSProveBlinding is proveBlindingIsWellFormed; the proof comes back inside a VerifPSRequest (X, Y, S, Z, D, F set).
+func VerifPSProveBlinding(c *math.Curve, m, r []*math.Zr, a, b []*math.G1, rcm *math.Zr, g, g0, h, u, cm *math.G1, gs []*math.G1) VerifPSRequest {
+	ξ := proveBlindingIsWellFormed(c, m, r, a, b, rcm, g, g0, h, u, cm, gs)
+	return VerifPSRequest{X: ξ.x, Y: ξ.y, S: ξ.s, Z: ξ.z, D: ξ.d, F: ξ.f}
+}
+
+// VerifPSVerifyBlinding is BlindCorrectFormProof.Verify on the proof held by the request object.
+func VerifPSVerifyBlinding(c *math.Curve, n int, v VerifPSRequest, cm, g, g0, h, u *math.G1, gs []*math.G1) error {
+	ξ := BlindCorrectFormProof{x: v.X, y: v.Y, s: v.S, z: v.Z, d: v.D, f: v.F}
+	return ξ.Verify(c, n, v.A, v.B, cm, g, g0, h, u, gs)
+}
+
+// VerifPSProvePoK is proveProofOfKnowledgeOfSignatureIsCorrectlyFormed.
+func VerifPSProvePoK(c *math.Curve, m []*math.Zr, δ *math.Zr, ν, hε *math.G1, κ, g2, X *math.G2, Y []*math.G2) VerifPSPoK {
+	ψ := proveProofOfKnowledgeOfSignatureIsCorrectlyFormed(c, m, δ, ν, hε, κ, g2, X, Y)
+	return VerifPSPoK{X: ψ.x, Y: ψ.y, Gamma: ψ.Γ, Phi: ψ.Φ}
+}
+
+// The two random oracles (digest before HashToZr).
+func VerifPSOracleBlinding(n int, d, f []*math.G1, s *math.G1, a, b []*math.G1, cm, g, g0, h, u *math.G1, gs []*math.G1) []byte {
+	return randomOracleForBlindingProof(n, d, f, s, a, b, cm, g, g0, h, u, gs)
+}
+
+func VerifPSOraclePoK(Γ *math.G2, Φ, ν, hε *math.G1, g2, X, κ *math.G2, Y []*math.G2) []byte {
+	return randomOracleForPoKofSignature(Γ, Φ, ν, hε, g2, X, κ, Y)
+}
